@@ -5,6 +5,8 @@
   spec-level definitions (`specImage`, `Disjoint`, …) read like the properties.
 -/
 import BespokeVerif.Model.Expr
+import BespokeVerif.Model.Cond
+import BespokeVerif.Model.Str
 namespace BV
 
 /-! ## labels and scopes -/
@@ -154,6 +156,9 @@ inductive Stmt where
   | createZone (name : String) (s e : Int)
   | comment                                      -- comment-only line: a line object of size 0
   | includeFile (f : Nat)
+  | str (raw : String) (term : Option Nat)      -- quoted string (escape sequences unprocessed) + terminator
+  | define (name : String) (v : SymVal)          -- #define
+  | cond (d : CondDir)                           -- #if / #elif / #else / #endif / #ifdef / #ifndef
 deriving Repr, Inhabited
 
 structure Line where
@@ -174,6 +179,7 @@ structure Cfg where
   preZones : List (String × Int × Int)
   preConsts : List (String × Int)
   preData : List (String × Int × Int × Int)      -- name, address, value, size
+  preSyms : SymTab := []                          -- ISA `predefined.symbols` and `-D` symbols
 deriving Repr, Inhabited
 
 /-! ## reading (`AssemblyFile.load_line_objects`) -/
@@ -183,7 +189,19 @@ structure ReadSt where
   zones : Zones
   used : List Nat            -- files already opened
   nextLoc : Nat              -- counter naming local regions
+  syms : SymTab := []        -- preprocessor symbols defined so far
 deriving Repr, Inhabited
+
+/-- whole-word substitution of the symbols defined so far in the expressions of a statement -/
+def substStmt (t : SymTab) : Stmt → Except Err Stmt
+  | .const n e => do .ok (.const n (← substE t e))
+  | .data w vals => do .ok (.data w (← vals.mapM (substE t)))
+  | .fill c v => do .ok (.fill (← substE t c) (← substE t v))
+  | .zerountil a => do .ok (.zerountil (← substE t a))
+  | .org e z => do .ok (.org (← substE t e) z)
+  | .align (some p) => do .ok (.align (some (← substE t p)))
+  | .instr o args => do .ok (.instr o (← args.mapM fun (e, w) => do pure ((← substE t e), w)))
+  | s => .ok s
 
 /-- read the statements of one file in order; `files` maps a file id to its statements; `fuel`
     bounds the include depth (a file cannot be opened twice, so #files + 1 suffices) -/
@@ -194,44 +212,57 @@ def readFile (cfg : Cfg) (files : List (List Stmt)) : Nat → Nat → ReadSt →
     match files[f]? with
     | none => .error .includeError
     | some stmts =>
-      let rec go (stmts : List Stmt) (sc : Scope) (zone : String) (mute : Nat) (st : ReadSt)
+      let rec go (stmts : List Stmt) (sc : Scope) (zone : String) (mute : Nat) (cs : CondStack) (st : ReadSt)
           (acc : List Line) : Except Err (List Line × ReadSt) :=
         match stmts with
         | [] => .ok (acc, st)
-        | s :: rest =>
+        | s0 :: rest =>
+          match s0 with
+          | .cond d => do
+            let cs' ← condStep st.syms cs d
+            go rest sc zone mute cs' st acc
+          | _ =>
+          -- a line in an unselected branch has no effect at all
+          if !cs.active then go rest sc zone mute cs st acc else
+          match substStmt st.syms s0 with
+          | .error er => .error er
+          | .ok s =>
           let mk (sc : Scope) (zone : String) (muted : Bool) (cv : Option Int := none) : Line :=
             { stmt := s, scope := sc, zone := zone, muted := muted, file := f, constVal := cv }
           match s with
+          | .define n v => do
+            let syms ← addSym st.syms n v
+            go rest sc zone mute cs { st with syms := syms } (acc ++ [mk sc zone (mute > 0)])
           | .includeFile g => do
             let (ls, st') ← readFile cfg files fuel g st
-            go rest sc zone mute st' (acc ++ ls)
+            go rest sc zone mute cs st' (acc ++ ls)
           | .label name =>
             if cfg.regs.contains name then .error .keywordLabel else
             if labelKind name ≠ 2 then
               let sc' := Scope.loc f st.nextLoc
-              go rest sc' zone mute { st with nextLoc := st.nextLoc + 1 } (acc ++ [mk sc' zone (mute > 0)])
-            else go rest sc zone mute st (acc ++ [mk sc zone (mute > 0)])
+              go rest sc' zone mute cs { st with nextLoc := st.nextLoc + 1 } (acc ++ [mk sc' zone (mute > 0)])
+            else go rest sc zone mute cs st (acc ++ [mk sc zone (mute > 0)])
           | .const name e =>
             if cfg.regs.contains name then .error .keywordLabel else
             match valueE (envOf st.labels cfg.regs sc) e with
             | .error er => .error er
             | .ok v => do
               let L ← st.labels.set sc name v
-              go rest sc zone mute { st with labels := L } (acc ++ [mk sc zone (mute > 0) (some v)])
+              go rest sc zone mute cs { st with labels := L } (acc ++ [mk sc zone (mute > 0) (some v)])
           | .org _ z =>
             let zn := z.getD "GLOBAL"
             if (st.zones.get? zn).isNone then .error .zoneDecl
-            else go rest (.file f) zn mute st (acc ++ [mk (.file f) zn (mute > 0)])
+            else go rest (.file f) zn mute cs st (acc ++ [mk (.file f) zn (mute > 0)])
           | .memzone zn =>
             if (st.zones.get? zn).isNone then .error .zoneDecl
-            else go rest (.file f) zn mute st (acc ++ [mk (.file f) zn (mute > 0)])
+            else go rest (.file f) zn mute cs st (acc ++ [mk (.file f) zn (mute > 0)])
           | .createZone name zs ze => do
             let zones ← createZone cfg.bits st.zones name zs ze
-            go rest sc zone mute { st with zones := zones } (acc ++ [mk sc zone (mute > 0)])
-          | .mute => go rest sc zone (mute + 1) st (acc ++ [mk sc zone (mute + 1 > 0)])
-          | .unmute => go rest sc zone (mute - 1) st (acc ++ [mk sc zone (mute - 1 > 0)])
-          | _ => go rest sc zone mute st (acc ++ [mk sc zone (mute > 0)])
-      go stmts (.file f) "GLOBAL" 0 { st0 with used := st0.used ++ [f] } []
+            go rest sc zone mute cs { st with zones := zones } (acc ++ [mk sc zone (mute > 0)])
+          | .mute => go rest sc zone (mute + 1) cs st (acc ++ [mk sc zone (mute + 1 > 0)])
+          | .unmute => go rest sc zone (mute - 1) cs st (acc ++ [mk sc zone (mute - 1 > 0)])
+          | _ => go rest sc zone mute cs st (acc ++ [mk sc zone (mute > 0)])
+      go stmts (.file f) "GLOBAL" 0 [] { st0 with used := st0.used ++ [f] } []
 
 /-! ## first pass (addresses, label values) -/
 
@@ -242,7 +273,7 @@ structure Placed where
 deriving Repr, Inhabited
 
 def isByteLine : Stmt → Bool
-  | .data .. | .bytes .. | .fill .. | .zerountil .. | .instr .. => true
+  | .data .. | .bytes .. | .fill .. | .zerountil .. | .instr .. | .str .. => true
   | _ => false
 
 /-- `PageAlignLine.set_start_address` -/
@@ -256,6 +287,7 @@ def firstPassStep (cfg : Cfg) (st : Zones × Labels) (ln : Line) : Except Err (P
   let (addr, size) ← match ln.stmt with
     | .data w vals => pure (cur, (w * vals.length : Int))
     | .bytes bs => pure (cur, (bs.length : Int))
+    | .str raw term => pure (cur, (((unescape raw.toList).length + term.toList.length : Nat) : Int))
     | .fill cnt _ => do let n ← valueE env cnt; pure (cur, n)
     | .zerountil a => do let t ← valueE env a; pure (cur, if t ≥ cur then t - cur + 1 else 0)
     | .instr _ args => pure (cur, ((1 + args.foldl (fun s a => s + a.2) 0 : Nat) : Int))
@@ -299,6 +331,7 @@ def lineBytes (cfg : Cfg) (L : Labels) (p : Placed) : Except Err (List Nat) :=
     let vs ← vals.mapM (valueE env)
     .ok (vs.flatMap (wordBytes w cfg.little))
   | .bytes bs => .ok (bs.map (· % 256))
+  | .str raw term => .ok ((unescape raw.toList).map (· % 256) ++ term.toList.map (· % 256))
   | .fill _ val => do
     let v ← valueE env val
     .ok (List.replicate p.size.toNat (byteAt v 0))
@@ -401,7 +434,7 @@ def assembleLines (cfg : Cfg) (files : List (List Stmt)) : Except Err (List Emit
   let L0 ← initLabels cfg
   let zs0 ← initZones cfg.bits cfg.origin cfg.preZones
   let (lines, st) ← readFile cfg files (files.length + 1) 0
-    { labels := L0, zones := zs0, used := [], nextLoc := 0 }
+    { labels := L0, zones := zs0, used := [], nextLoc := 0, syms := cfg.preSyms }
   let (placed, _, L) ← firstPass cfg lines (st.zones, st.labels)
   let sorted := sortByAddr (placed ++ predefinedLines cfg)
   let es ← emitAll cfg L sorted
